@@ -24,7 +24,7 @@ class Outside(Exception):
 
 
 # ---------------------------------------------------------------------------------------------------
-# exact numbers: {squarefree n: Fraction}, zero = {}
+# exact numbers: {squarefree n: Fraction}, zero = {}; a negative n stands for the principal root i*sqrt(|n|)
 def _sqsplit(s: int):
     """s = m*m*r with r squarefree (s > 0)."""
     m, r, p = 1, s, 2
@@ -60,7 +60,11 @@ def s_mul(a: dict, b: dict) -> dict:
     out: dict = {}
     for n1, q1 in a.items():
         for n2, q2 in b.items():
-            m, r = _sqsplit(n1 * n2)
+            m, r = _sqsplit(abs(n1 * n2))
+            if n1 < 0 and n2 < 0:
+                m = -m                      # i sqrt(a) * i sqrt(b) = -sqrt(a b)
+            elif (n1 < 0) != (n2 < 0):
+                r = -r
             v = out.get(r, 0) + q1 * q2 * m
             if v:
                 out[r] = v
@@ -94,6 +98,8 @@ def s_pow(a: dict, e: int) -> dict:
 def s_sign(a: dict) -> int:
     if not a:
         return 0
+    if any(n < 0 for n in a):
+        raise Outside("sign of a non-real number")
     if len(a) == 1:
         (_, q), = a.items()
         return 1 if q > 0 else -1
@@ -108,11 +114,11 @@ def s_sign(a: dict) -> int:
 def s_sqrt(a: dict) -> dict:
     if not a:
         return {}
-    if set(a) != {1} or a[1] < 0:
-        raise Outside("square root of an irrational or negative number")
+    if set(a) != {1}:
+        raise Outside("square root of an irrational number")
     q = a[1]
-    m, r = _sqsplit(q.numerator * q.denominator)
-    return {r: Fraction(m, q.denominator)}
+    m, r = _sqsplit(abs(q.numerator) * q.denominator)
+    return {(r if q > 0 else -r): Fraction(m, q.denominator)}      # sqrt(-q) = i sqrt(q)
 
 
 def from_model(val: dict):
@@ -600,6 +606,8 @@ def _compile(expr, names, t):  # pylint: disable=too-many-return-statements,too-
         return toks, "s"
     if isinstance(expr, sp.Pow):
         b, k = _compile(expr.base, names, t)
+        if k == "s" and isinstance(expr.exp, sp.Rational) and int(expr.exp.q) == 2 and abs(int(expr.exp.p)) <= 16:
+            return b + [["sqrt", 0]] + ([["pow", int(expr.exp.p)]] if int(expr.exp.p) != 1 else []), "s"
         if k != "s" or not isinstance(expr.exp, sp.Integer) or abs(int(expr.exp)) > 16:
             raise Outside(f"power {expr.exp} / base kind {k}")
         return b + [["pow", int(expr.exp)]], "s"
